@@ -99,7 +99,9 @@ From Coq Require Import ZArith NArith. (* consts *)
 From FG Require ConstTie.
 From FG Require TTImpl.
 Theorem C11_model_constants_dumped :
-  TTImpl.ValueInf = c_value_inf /\ TTImpl.ValueMax = c_value_max /\ TTImpl.ValueCheckMate = c_value_checkmate /\ TTImpl.MaxDepth = c_max_depth /\ TTImpl.ValueCheckMateThreshold = c_value_checkmate_threshold /\ TTImpl.valueShift = c_value_shift /\ Z.of_N TTImpl.TtEntrySize = c_tt_entry_size /\ TTImpl.MaxSizeInMB = c_tt_max_size_mb.
+  TTImpl.ValueInf = c_value_inf /\ TTImpl.ValueMax = c_value_max /\ TTImpl.ValueCheckMate = c_value_checkmate /\ TTImpl.MaxDepth = c_max_depth /\ TTImpl.ValueCheckMateThreshold = c_value_checkmate_threshold /\ TTImpl.valueShift = c_value_shift /\ Z.of_N TTImpl.TtEntrySize = c_tt_entry_size /\ TTImpl.MaxSizeInMB = c_tt_max_size_mb /\
+  TTImpl.ValueNA = c_value_na /\ TTImpl.ValueMin = c_value_min /\
+  TTImpl.moveMask = c_move_mask /\ TTImpl.valueMask = c_value_mask /\ Z.of_N TTImpl.MB = c_mb.
 Proof. exact ConstTie.ttimpl_constants_dumped. Qed.
 
 (* tie of the mate-distance correction and of the capacity arithmetic to the running engine:
